@@ -44,6 +44,12 @@ type Profile struct {
 	FaultW  int    `json:"fault_w"`
 	Limit   int    `json:"concurrency_limit"`
 	Steps   int    `json:"steps"`
+	// Allow sets the client's AllowRFC6962ArchivalLeafs option. Misidx is the
+	// number of positions of the authentic log that hold a copy of an earlier
+	// leaf (a log that sequenced an entry twice: the committed leaf's own index
+	// differs from its position).
+	Allow  bool `json:"allow_archival,omitempty"`
+	Misidx int  `json:"misindexed,omitempty"`
 }
 
 func MakeProfile(prop string, seed uint64, tier string) *Profile {
@@ -60,6 +66,11 @@ func MakeProfile(prop string, seed uint64, tier string) *Profile {
 	if r.Chance(3, 4) {
 		p.Tag = "faults"
 		p.FaultW = []int{5, 20, 50}[r.Intn(3)]
+	}
+	p.Allow = r.Chance(1, 3)
+	if p.Size > 1 && r.Chance(1, 3) {
+		p.Misidx = 1 + r.Intn(3)
+		p.Tag += "+misidx"
 	}
 	return p
 }
@@ -116,6 +127,7 @@ type world struct {
 	calls []*call
 	cur   *call
 	servedCkpt [][]byte // checkpoint bodies actually sent to the client during the current call
+	mis        []int64  // positions whose committed leaf carries another index
 }
 
 func (w *world) v(class, format string, a ...any) { w.sim.Violate("C12", class, format, a...) }
@@ -162,12 +174,19 @@ func (w *world) buildTruth() {
 	r := core.NewRand(core.Mix(w.sim.Seed, 0x7277))
 	c := corpus.Get()
 	t := &truth{}
+	mis := map[int64]bool{}
+	for k := 0; k < p.Misidx; k++ {
+		mis[1+int64(r.Intn(int(p.Size-1)))] = true
+	}
 	for b := 0; b < 2; b++ {
 		t.tree[b] = &ref.Tree{}
 		for i := int64(0); i < p.Size; i++ {
 			var e *ref.Entry
 			if b == 1 && i < p.ForkAt {
 				e = t.entries[0][i]
+			} else if b == 0 && mis[i] {
+				e = t.entries[0][r.Intn(int(i))]
+				w.mis = append(w.mis, i)
 			} else {
 				e = &ref.Entry{Index: i, Timestamp: 946684800000 + i/7*1000 + int64(b)}
 				switch r.Intn(4) {
@@ -301,6 +320,14 @@ func (w *world) ServeHTTP(rw http.ResponseWriter, r *http.Request) {
 		}
 	case "extend":
 		body = append(body, byte(n), 0, 1)
+	case "extline":
+		// an extension line nobody signed (the RFC 6962 signature covers size,
+		// root and timestamp only), spliced in after the root line
+		if path == "checkpoint" {
+			if parts := bytes.SplitN(body, []byte("\n"), 4); len(parts) == 4 {
+				body = bytes.Join([][]byte{parts[0], parts[1], parts[2], []byte(fmt.Sprintf("injected extension %d", n)), parts[3]}, []byte("\n"))
+			}
+		}
 	}
 	if path == "checkpoint" {
 		w.servedCkpt = append(w.servedCkpt, bytes.Clone(body))
@@ -348,6 +375,7 @@ func (w *world) main(replay []core.Cmd) {
 		HTTPClient:       hc,
 		UserAgent:        "verifsim (+https://example.com)",
 		ConcurrencyLimit: p.Limit,
+		AllowRFC6962ArchivalLeafs: p.Allow,
 		Logger:           slog.New(slog.NewTextHandler(io.Discard, nil)),
 	})
 	if err != nil {
@@ -432,10 +460,18 @@ func (w *world) planCalls() {
 		case 3:
 			c.kind = "entry"
 			c.idx = int64(r.Intn(int(c.n)))
+			if len(w.mis) > 0 && r.Chance(1, 2) {
+				c.idx, c.n = w.mis[r.Intn(len(w.mis))], p.Size
+			}
 		default:
 			c.kind = "inclusion"
 			c.idx = int64(r.Intn(int(c.n)))
 			c.sctKind = []string{"valid", "valid", "wrong-logid", "wrong-timestamp", "wrong-index", "wrong-signature", "bad-extension", "fork-leaf"}[r.Intn(8)]
+			if len(w.mis) > 0 && r.Chance(1, 2) {
+				// the genuine SCT of the duplicated leaf, rewritten to name the
+				// position of the copy
+				c.idx, c.n, c.sctKind = w.mis[r.Intn(len(w.mis))], p.Size, "position-index"
+			}
 			c.sct = w.makeSCT(c, r)
 		}
 		w.calls = append(w.calls, c)
@@ -452,6 +488,8 @@ func (w *world) makeSCT(c *call, r *core.Rand) []byte {
 	switch c.sctKind {
 	case "wrong-logid":
 		logID[3] ^= 1
+	case "position-index":
+		idx = c.idx
 	case "wrong-timestamp":
 		ts++
 	case "wrong-index":
@@ -511,7 +549,7 @@ func (w *world) enabled(next int, drain bool) []core.WCmd {
 			}
 		}
 		if op.Key == "checkpoint" {
-			kinds = append(kinds, "older", "foreign", "flip", "extend")
+			kinds = append(kinds, "older", "foreign", "flip", "extend", "extline", "extline")
 		}
 		k := kinds[r.Intn(len(kinds))]
 		arg := fmt.Sprint(n)
@@ -698,7 +736,11 @@ func (w *world) finish() {
 		if c.err == nil && !sameLeaf(c.entry, t[c.idx]) {
 			w.v("unauthentic-entry", "Entry(%d) returned other content than the leaf the tree head commits to", c.idx)
 		}
-		if c.faults == 0 && c.err != nil {
+		if t[c.idx].Index != c.idx {
+			// the committed leaf names another index: refusing it is right,
+			// returning it as it is committed is within the statement
+			w.sim.Probe("entry.misindexed")
+		} else if c.faults == 0 && c.err != nil {
 			w.v("faultfree-error", "Entry(%d) failed without any fault: %v", c.idx, c.err)
 		}
 	case "inclusion":
